@@ -88,6 +88,24 @@ CLAIMED.update({
             "MemoryMetaStore.Update is atomic; in-memory DataStore deletes tombstoned files immediately.", "DESIGN.md section 5 C13"),
 })
 
+SCHED_NOTE = ("The harness owns every store call (latency, one-shot failures, gates) and every client call; interleavings inside the engine that cross neither are left to the Go scheduler, GOMAXPROCS variation and repetition. "
+              "Verdicts that depend on wall-clock time use generous allowances and must reproduce in three isolated re-executions.")
+
+CLAIMED.update({
+    "C05": ("exploration",
+            "property-based testing (rapid): generated multi-client schedules (IngestRows/Flush/Start/Stop/Query/Merge, channel kinds, store latency and failures) with a history invariant — exactly one value per accepted batch once Stop returned nil",
+            "300 (quick) / 10 000 (thorough) generated schedules over engines started first/late/twice/never; every accepted batch's channel is observed for 0, 1 or >1 answers right after Stop and after a quiescence window.",
+            SCHED_NOTE, "DESIGN.md section 5 C05"),
+    "C07": ("exploration",
+            "property-based testing (rapid): generated ingest/Flush schedules over slow stores with an order-observing oracle (newest-first polling of done channels, visibility query at each observed nil ack and at each Flush return)",
+            "Acceptance order is known (one ingester); observation is sound because a later ack is only ever observed after it was sent. 200 (quick) / 5 000 (thorough) schedules, most with a flush in flight at the moment of observation.",
+            SCHED_NOTE, "DESIGN.md section 5 C07"),
+    "C08": ("exploration",
+            "property-based testing (rapid): generated Stop schedules with wedged / ctx-ignoring stores, blocked producers, abandoned done channels and custom Context implementations (late AfterFunc); oracle over the recorded call history (logical clock of the store wrapper) plus bounded-time checks with confirm-by-replay",
+            "100 (quick) / 3 000 (thorough) schedules; most end in a deadline error with flushes queued behind the wedge. Checks refusal of new work, drain-before-nil, deadline + 350 ms, no CreateFile/Update after a deadline error, and that every receivable waiter gets a value.",
+            SCHED_NOTE, "DESIGN.md section 5 C08"),
+})
+
 PENDING_REASON ="check not yet built in this revision of /verif (no technical obstacle; see DESIGN.md section 5)"
 
 def main():
